@@ -606,11 +606,8 @@ def genbank_once(scratch, text, want):
     }
     old = getattr(genbank, "MinimalGenbankParser", None)
     if old is not None:
-        import warnings
-
-        with warnings.catch_warnings():
-            warnings.simplefilter("ignore")
-            got["MinimalGenbankParser(lines)"] = _exc(lambda: [[r["locus"], r["sequence"].upper()] for r in old(text.splitlines())])
+        old = getattr(old, "__wrapped__", old)  # the deprecation decorator prints a warning per call
+        got["MinimalGenbankParser(lines)"] = _exc(lambda: [[r["locus"], r["sequence"].upper()] for r in old(text.splitlines())])
     p.unlink()
     if all(v == w for v in got.values()):
         return None
